@@ -49,11 +49,11 @@ def run_case(case):
                 state["others_put_since_validation"][i] = 0
             elif label.startswith("s3:get") and target == ".locks/metadata.lock":
                 o = world.fake.objects.get(lock_key)
-                state["holder_ok"][i] = o is not None and o["body"].decode() == state["ids"].get(i)
+                state["holder_ok"][i] = o is not None and o["body"].decode().split("\n")[0] == state["ids"].get(i)
             elif label.startswith("s3:put") and target.startswith("metadata/v") and target.endswith(".metadata.json") and info and info.get("landed"):
                 # the metadata file is written just before the fencing read: a lock already lost HERE was lost before the commit point
                 o = world.fake.objects.get(lock_key)
-                state.setdefault("own_at_mdwrite", {})[i] = o is not None and o["body"].decode() == state["ids"].get(i)
+                state.setdefault("own_at_mdwrite", {})[i] = o is not None and o["body"].decode().split("\n")[0] == state["ids"].get(i)
             elif label.startswith("s3:put") and target == HINT and info and info.get("landed"):
                 if sc["lock"] != "noexcl" and state.get("own_at_mdwrite", {}).get(i) is False and i < len(ops):
                     state.setdefault("lost_lock_commits", []).append(i)
